@@ -58,35 +58,40 @@ def model_check(ctx):
 
 
 def cases(ctx):
-    cfg = "GEN_AreasMeta_t.cfg" if ctx.thorough else "GEN_AreasMeta.cfg"
-    r = tlc.run_tlc("MC_AreasMeta", cfg, "x07_gen", workers=1, timeout=3000)
-    if r["rc"] != 0 and "No error has been found" not in r["out"]:
-        raise tlc.MachineryError("GEN failed: " + r["out"][-2000:])
-    g = graph.parse_edges(tlc.tla_unquote(p) for p in tlc.printed_tuples(r["out"], "EDGE"))
     cs = []
-    n_edges = sum(len(v) for v in g.values())
-    n_walks = 0
-    for d in ("refs", "move", "scen", "meta"):
-        sub = {k: v for k, v in g.items() if json.loads(k)["d"] == d}
-        inits = [k for k in sub if _is_init(json.loads(k))]
-        if len(inits) != 1:
-            raise tlc.MachineryError("initial state of domain %s not in the dumped graph" % d)
-        keys = _META_ARGS if d == "meta" else _NET_ARGS
-        for w in graph.cover_walks(sub, inits[0], max_len=30, rng=ctx.rng):
-            cs.append({"src": "walk", "kind": "meta" if d == "meta" else "net", "dom": d,
-                       "ops": [{k: a[k] for k in keys if k in a} for a in w]})
-            n_walks += 1
-    n_val = 0
-    for p in tlc.printed_tuples(r["out"], "CASE"):
-        c = json.loads(tlc.tla_unquote(p))
-        c["src"] = "tlc"
-        cs.append(c)
-        n_val += 1
-    if not n_val or not n_walks:
-        raise tlc.MachineryError("GEN produced no cases:\n" + r["out"][-2000:])
-    ctx.mc_runs.append({"module": "MC_AreasMeta", "cfg": cfg, "distinct_states": r["distinct"],
-                        "states_generated": r["generated"], "depth": r["depth"], "wall_s": r["wall_s"],
-                        "verdict": "dumped %d labelled edges -> %d covering walks; %d value cases" % (n_edges, n_walks, n_val)})
+    n_edges = 0
+    for cfg in (("GEN_AreasMeta_t.cfg", "GEN_AreasMeta_t3.cfg") if ctx.thorough else ("GEN_AreasMeta.cfg",)):
+        r = tlc.run_tlc("MC_AreasMeta", cfg, "x07_gen", workers=1, timeout=3000)
+        if r["rc"] != 0 and "No error has been found" not in r["out"]:
+            raise tlc.MachineryError("GEN failed: " + r["out"][-2000:])
+        g = graph.parse_edges(tlc.tla_unquote(p) for p in tlc.printed_tuples(r["out"], "EDGE"))
+        n_e = sum(len(v) for v in g.values())
+        n_walks = 0
+        for d in ("refs", "move", "scen", "meta"):
+            sub = {k: v for k, v in g.items() if json.loads(k)["d"] == d}
+            if not sub:
+                continue
+            inits = [k for k in sub if _is_init(json.loads(k))]
+            if len(inits) != 1:
+                raise tlc.MachineryError("initial state of domain %s not in the dumped graph" % d)
+            keys = _META_ARGS if d == "meta" else _NET_ARGS
+            for w in graph.cover_walks(sub, inits[0], max_len=30, rng=ctx.rng):
+                cs.append({"src": "walk", "kind": "meta" if d == "meta" else "net", "dom": d,
+                           "ops": [{k: a[k] for k in keys if k in a} for a in w]})
+                n_walks += 1
+        n_val = 0
+        for p in tlc.printed_tuples(r["out"], "CASE"):
+            c = json.loads(tlc.tla_unquote(p))
+            c["src"] = "tlc"
+            cs.append(c)
+            n_val += 1
+        if not n_walks or (not n_val and cfg != "GEN_AreasMeta_t3.cfg"):
+            raise tlc.MachineryError("GEN produced no cases:\n" + r["out"][-2000:])
+        ctx.mc_runs.append({"module": "MC_AreasMeta", "cfg": cfg, "distinct_states": r["distinct"],
+                            "states_generated": r["generated"], "depth": r["depth"], "wall_s": r["wall_s"],
+                            "verdict": "dumped %d labelled edges -> %d covering walks; %d value cases" % (n_e, n_walks, n_val)})
+        n_edges += n_e
+        del r, g
     ctx.extra["graph_edges"] = n_edges
     # seeded random cases beyond TLC's bounds
     rng = ctx.rng
